@@ -1,8 +1,9 @@
 package walletsim
 
 import (
-	"os"
 	"fmt"
+	"github.com/btcsuite/btclog"
+	"os"
 	"sort"
 	"time"
 
@@ -24,8 +25,10 @@ type sim struct{}
 
 func init() { core.Register(sim{}) }
 
-func (sim) Name() string        { return "walletsim" }
-func (sim) Props() []string     { return []string{"C09", "C15", "C20", "C06", "C16", "C04", "C01", "C03", "C05", "C08", "C13"} }
+func (sim) Name() string { return "walletsim" }
+func (sim) Props() []string {
+	return []string{"C09", "C15", "C20", "C06", "C16", "C04", "C01", "C03", "C05", "C08", "C13"}
+}
 func (sim) Level(string) string { return "exploration" }
 func (sim) Rule(prop string) string {
 	switch prop {
@@ -332,12 +335,12 @@ type issueRec struct {
 }
 
 type runState struct {
-	sent6   []sentRec
-	x       *world
-	issues  []issueRec
-	errs    map[string]int
-	section int
-	renames int
+	sent6                   []sentRec
+	x                       *world
+	issues                  []issueRec
+	errs                    map[string]int
+	section                 int
+	renames                 int
 	previews, imports, obsN int
 }
 
@@ -350,6 +353,11 @@ func (sim) Execute(env *core.Env, p *core.Plan) {
 		MaxSteps: 3_000_000, ExpectedSteps: 3000 + 400*len(p.Ops), Trace: env.Verbose}
 	if p.C("target_commit_window", 0) == 1 {
 		cfg.TargetSites = []string{"db:commit.callbacks"}
+	}
+	if env.Verbose && os.Getenv("VERIF_WALLET_LOG") != "" {
+		l := btclog.NewBackend(os.Stdout).Logger("WLLT")
+		l.SetLevel(btclog.LevelDebug)
+		wallet.UseLogger(l)
 	}
 	var x *world
 	rs := &runState{errs: map[string]int{}}
@@ -914,6 +922,19 @@ func (rs *runState) exec(task, step int, op core.Op) {
 				env.Count("op.NextAccount")
 				env.Eff()
 			}
+		}
+	case "failnth":
+		if !x.running {
+			m := []string{"FilterBlocks", "GetBlockHash", "GetBlockHeader"}[int(uint64(op.Arg(0))%3)]
+			n := int(op.Arg(1))
+			if n < 1 {
+				n = 1
+			}
+			if n > 6 {
+				n = 6
+			}
+			x.pendingFailNth = map[string]int{m: n}
+			env.Count("fault.backend-call-during-resumed-recovery." + m)
 		}
 	case "crashsync":
 		rs.crashsync(task, step, op)
